@@ -165,6 +165,11 @@ def check_gauge(case, rec):
     v_rot = np.einsum('ea,fb,gc,hd,efgh->abcd', u, u, u.conj(), u.conj(), v)
     h = ptn.molecular_hamiltonian_mpo(t, v, optimize=False)
     h_rot = ptn.molecular_hamiltonian_mpo(t_rot, v_rot, optimize=False)
+    # the recipe swaps site tensors between the two explicit MPOs, so they must share their bond layout (the explicit
+    # construction does not look at the coefficient values; its layout depends on L only)
+    require(h.bond_dims == h_rot.bond_dims and all(np.array_equal(p, q) for p, q in zip(h.qD, h_rot.qD)),
+            'explicit MPOs of the original and of the rotated coefficients have different bond layouts: the gauge transformation cannot relate them',
+            original=h.bond_dims, rotated=h_rot.bond_dims)
     h.A[i] = np.copy(h_rot.A[i]); h.A[i + 1] = np.copy(h_rot.A[i + 1])
     # other Hamiltonians built in between must not matter: `h` carries its own node bookkeeping
     other = case.get('interleave')
